@@ -29,6 +29,9 @@ def buf_events(A, sop=None):
 
 
 def run(W, chk):
+    from rules.common import borrow as _b
+    _b(W, chk, "C08", {"AGREE-lock-msg"}, "LP locked by the second leg is locked for the depositor")
+    _b(W, chk, "C04", {"AGREE-deducted-equals-sent", "PROV-reserve-update"}, "the first leg's swap books exactly what the simulation the buffer relies on reports")
     from rules.common import borrow
     borrow(W, chk, "C08", {"CUT-expand-own-position"}, "the second leg cannot expand a position of someone other than the sender")
     A = W.run("pool_manager", "execute", ("ProvideLiquidity",))
